@@ -2,13 +2,27 @@
    The typing judgement and range predicate are Spec/Types.v; the check evaluates them on the AST of every
    generated query and compares with compile() for random registries.
 
-   Full statement (NOT proved: it needs the token-level parser theorem of C03/C04):
-     C05_iff : forall cfg toks q, grammatical toks q ->
-               ((exists s, p_parse cfg toks = POk q s) <-> wt_query (reg cfg) q = true /\ ints_in_range lo hi q = true)
+   C05_sound below is the soundness half for every text: whatever compile() accepts is well-typed and in range.
+   The completeness half (NOT proved: it needs the token-level parser theorem of C03/C04):
+     C05_complete : forall cfg toks q, grammatical toks q -> wt_query (reg cfg) q = true -> ints_in_range lo hi q = true ->
+                    exists s, p_parse cfg toks = POk q s
+   is decided by the correspondence on generated well-typed queries.  Parentheses are not represented in the syntax
+   tree the judgement is about: that a parenthesised argument counts as a logical-expr is stated about the parser model
+   only (grouped_ok in Model/Parse.v) and checked against the code on a grid of parenthesised arguments.
 
-   Proved below: the compile-time checks of the parser model, as functions on expressions, coincide with the
+   Also proved below: the compile-time checks of the parser model, as functions on expressions, coincide with the
    judgement's side conditions for every registry. *)
-From JP Require Import Base.Json Model.Ast Model.Parse Spec.Types.
+From JP Require Import Base.Json Model.Ast Model.Parse Model.Api Spec.Types Proofs.ParseTyped.
+
+(* For every environment (any registry of declared function types, any integer range) and every text: if compile()
+   returns a query, every function call in it is declared and well-typed (argument by argument, nested calls
+   included), only singular queries, literals and value-typed calls are compared, the operands of ! && || and every
+   filter are logical, and every index and slice integer lies in the range.  Proofs/ParseTyped.v: an invariant
+   through the fourteen mutually recursive parser functions. *)
+Theorem C05_sound : forall cfg text q, m_compile cfg text = Ok q ->
+  wt_query (reg cfg) q = true /\ ints_in_range (min_idx cfg) (max_idx cfg) q = true.
+Proof. exact compile_typed. Qed.
+Print Assumptions C05_sound.
 
 Theorem C05_singular_partial : forall q, m_singular q = singular q.
 Proof. intros q. unfold m_singular, singular.
